@@ -462,11 +462,27 @@ def _run_one(spec: JobSpec, hosts, workers, gpus, seed=0, prefix=None, fifo=True
         cl = Cluster(job, spec, hosts, workers, gpus, ch, fifo)
         cl.lazy = lazy
         pre = precompute(job)
-        state = impl.run(job, cl, pre)
+        # spin guard: impl.run's loop may turn without ever waiting (has_computable stays true, nothing is assigned); the real plan() is
+        # still called, the wrapper only counts the turns made since the controller last waited for events
+        real_plan = impl.plan
+        spins = [0, cl.recv_calls]
+
+        def counted_plan(state, assignments):
+            if cl.recv_calls != spins[1] or assignments:
+                spins[0], spins[1] = 0, cl.recv_calls
+            spins[0] += 1
+            if spins[0] > 200:
+                raise Violation("C03", "C03/bounded-rounds", "controller loop turned 200 times without assigning anything or waiting for events (busy loop, never terminates)")
+            return real_plan(state, assignments)
+        impl.plan = counted_plan
+        try:
+            state = impl.run(job, cl, pre)
+        finally:
+            impl.plan = real_plan
     except Violation as v:
         info.update(schedule=list(ch.trace), log=_tail(locals().get("cl")))
         cls = v.cls
-        if cls == "other" and cl.reordered_task_outputs and v.obligation in ("C03/no-wait-when-nothing-outstanding", "C02/dispatch-to-free-worker"):
+        if cls == "other" and cl.reordered_task_outputs and v.obligation in ("C03/no-wait-when-nothing-outstanding", "C03/bounded-rounds", "C02/dispatch-to-free-worker"):
             cls = "task-outputs-reordered"
         return False, dict(info, prop=v.prop, obligation=v.obligation, observed=v.what, cls=cls), cl
     except Exception as e:  # noqa  - "never raises from its own bookkeeping"
